@@ -32,6 +32,26 @@ CHECKS.update({
    text="Seeded exploration: each generated query is recomputed under drawn knob vectors (split_every, split_out, shuffle_method keyword and config, max_branch, broadcast, npartitions hints, upsample, fuse, occasionally a drawn multi-worker schedule) with partition counts on both sides of the planner's selection thresholds; every run must equal the default-knob reference observation (row multiset). Probes record which algorithm (tree vs shuffle reduce, broadcast vs hash join, staged shuffle, presorted path) was actually selected.",
    note="Configuration sampling in the swarm sense; reference is dask-expr itself at default knobs; three known findings are excluded from generation and re-checked by their own probes (known_findings.json).", ref="DESIGN.md §5 C10"),
 })
+CHECKS.update({
+ "C08": dict(technique="deterministic simulation: cross-process / cross-hash-seed / cross-history transcript equality in pristine forks + single-change sibling probing",
+   text="Seeded exploration: for every generated query the full plan transcript (names of all nodes in walk order, output keys, sorted graph keys at all six optimizer stages) must be identical for a second build, a rebuild after drop+GC, another construction order, a pristine process, pristine processes under two other PYTHONHASHSEEDs and after unrelated history; single-change siblings (one parameter, int vs float literal, one input cell, index only, column order, source layout) built after their original must neither share its name while being a different query nor return anything but their own pristine answer.",
+   note="Program space sampled; siblings cover single-parameter variations of the recipe grammar; disk-shuffle helper keys compared by prefix (known finding); same machine / same library versions in all processes.", ref="DESIGN.md §5 C08"),
+ "C15": dict(technique="deterministic simulation: seeded history machine with cache-capacity buggify, GC control and injected task failures, checked against pristine-process runs",
+   text="Seeded exploration of session histories (observe / optimize kept or discarded / drop / gc / compute / compute with an injected task error in the main graph or a nested planner compute) over a pool of related queries larger than the (shrunk) cache capacities; every observation - result via compute(), partition-wise result, optimized plan name, divisions, npartitions, len - must equal the same query alone in a pristine process, and a compute whose fault fired must raise.",
+   note="Pristine process = fresh fork of a template that imported dask_expr and built nothing; parquet dataset rewrites are exercised under C18.", ref="DESIGN.md §5 C15"),
+ "C16": dict(technique="deterministic simulation: process restart with only the pickle surviving, receiver is a pristine fork",
+   text="Seeded exploration: each generated query is pickled as built / optimized / optimized(fuse=False) / lowered after a drawn originating history (extra queries, shrunk caches, GC) and loaded in a pristine process; name, meta, divisions, npartitions and computed result there must equal those in the originating process, and nothing may fail there that works here.",
+   note="Receiver has the same PYTHONHASHSEED (cross-seed naming is C08); no files involved.", ref="DESIGN.md §5 C16"),
+ "C17": dict(technique="deterministic simulation: checkpoint/restore equivalence at every cut point with the materialising run on the simulated cluster and fingerprint-monitored downstream computes",
+   text="Seeded exploration: at every intermediate member of a generated recipe the query is cut with persist() (drawn schedule, fuse), a delayed round trip or a legacy round trip and the tail rebuilt on the re-imported collection; final result, schema (dtype kinds) and divisions must equal the uncut run, the cut run may not fail where the uncut one works, and the re-imported partitions must stay bit-identical across several downstream computes.",
+   note="Scalars are not cut points; three known findings are excluded from generation and re-checked by probes.", ref="DESIGN.md §5 C17"),
+ "C18": dict(technique="deterministic simulation: simulated object store (SimFS) with file clock, permuted listings and write/read fault injection under both parquet readers",
+   text="Seeded exploration on an in-memory store owned by the simulator: datasets written by to_parquet under drawn writer schedules or directly with unsorted / overlapping per-file ranges are read through the fsspec and arrow-filesystem readers; the full read must equal what was written, reported divisions must be truthful, every pushed-down observation (projection, predicate, partition subset, len) must equal the same operations on an in-memory copy of the full read, overwrite from a query reading the target must be refused with every byte left in place, a re-read after a rewrite must show the new contents, a failing file write must surface and a read error must never become fewer rows.",
+   note="pyarrow reader threads and the statistics thread pool stay real; three known findings (null-dropping '!=', unnamed-index label, _metadata + arrow reader) are excluded and probed.", ref="DESIGN.md §5 C18"),
+ "C19": dict(technique="deterministic simulation: bounded-liveness step monitor on the rewrite drivers + plan transcript equality under GC schedules, history and hash seeds in pristine forks",
+   text="Seeded exploration: optimize() of every generated query is step-counted (simplify_once / rewrite / lower_once / fusion substitutions) against a bound of 200 x (nodes + 1) and 'does not converge' is a violation; the plan transcript must be identical when repeated, after unrelated history + GC, with GC forced between all rewrite steps and in pristine processes under other hash seeds; optimize(optimize(q)) and optimize(fuse=False) then optimize(fuse=True) must compute the same observation as optimize(q).",
+   note="Program space sampled; CPU-time budget is the backstop for hangs outside the counted drivers.", ref="DESIGN.md §5 C19"),
+})
 PENDING = {}
 def main():
     checks = []
